@@ -10,6 +10,59 @@ QUICK_MS = int(os.environ.get("PYVC_TIMEOUT_MS", "10000"))
 DEBUG = bool(os.environ.get("PYVC_DEBUG"))
 
 
+def forked(fn, timeout_s):
+    """Run fn() in a forked child with a hard wall-clock limit (z3's own timeout is not always
+    honoured inside nlsat).  fn must return a JSON-serialisable value.  Returns (ok, value)."""
+    import json as _json
+    import select
+    import signal
+    r, w = os.pipe()
+    pid = os.fork()
+    if pid == 0:
+        try:
+            os.close(r)
+            try:
+                val = fn()
+                data = _json.dumps({"ok": True, "val": val})
+            except BaseException as e:      # noqa
+                data = _json.dumps({"ok": False, "val": "%s: %s" % (type(e).__name__, e)})
+            os.write(w, data.encode())
+        finally:
+            os._exit(0)
+    os.close(w)
+    buf = b""
+    deadline = time.time() + timeout_s
+    try:
+        while True:
+            left = deadline - time.time()
+            if left <= 0:
+                break
+            rl, _, _ = select.select([r], [], [], left)
+            if not rl:
+                break
+            chunk = os.read(r, 65536)
+            if not chunk:
+                break
+            buf += chunk
+    finally:
+        os.close(r)
+        try:
+            os.kill(pid, signal.SIGKILL)
+        except OSError:
+            pass
+        try:
+            os.waitpid(pid, 0)
+        except OSError:
+            pass
+    if not buf:
+        return False, "hard timeout"
+    try:
+        d = _json.loads(buf.decode())
+        return d["ok"], d["val"]
+    except Exception:
+        return False, "garbled child output"
+
+
 class Obligation:
     __slots__ = ("name", "kind", "status", "backend", "time_s", "model", "detail", "unit",
                  "props", "reason", "paths", "smt2")
@@ -67,6 +120,33 @@ class Prover:
         for h in hyps:
             s.add(h)
         s.add(z3.Not(g))
+        if is_nonlinear(g) or any(is_nonlinear(h) for h in hyps if not isinstance(h, bool)):
+            # nonlinear arithmetic: z3 may ignore its timeout; run under a hard limit
+            def job():
+                rr = s.check()
+                md = None
+                if rr == z3.sat and want_model:
+                    m = s.model()
+                    md = _model_to_dict(m)
+                    if eval_terms:
+                        for k, t in eval_terms.items():
+                            try:
+                                md["@" + k] = str(m.eval(t, model_completion=True))
+                            except Exception:
+                                pass
+                return [str(rr), md, s.reason_unknown() if rr == z3.unknown else None]
+            tmo = (timeout_ms or self.timeout_ms) / 1000.0
+            ok, val = forked(job, tmo + 3)
+            dt = time.time() - t0
+            if not ok:
+                return "unknown", "z3", dt, None, "hard timeout (%s)" % val
+            rs, md, reason = val
+            if rs == "unsat":
+                self.stats["z3"] += 1
+                return "proved", "z3", dt, None, None
+            if rs == "sat":
+                return "refuted", "z3", dt, md, None
+            return "unknown", "z3", dt, None, reason
         r = s.check()
         dt = time.time() - t0
         if DEBUG and dt > 0.5:
@@ -98,6 +178,16 @@ class Prover:
         return "unknown", "z3", dt, None, reason
 
     def check_nra(self, hyps, goal, timeout_ms=None):
+        t0 = time.time()
+        tmo = timeout_ms or self.timeout_ms
+        ok, val = forked(lambda: self._check_nra(hyps, goal, tmo)[0], 2.5 * tmo / 1000.0 + 2)
+        if not ok:
+            if DEBUG:
+                print("PYVC-SLOW nra hard-stop (%s) :: %s" % (val, str(goal)[:120].replace("\n", " ")))
+            return "unknown", time.time() - t0
+        return val, time.time() - t0
+
+    def _check_nra(self, hyps, goal, timeout_ms=None):
         """Purified pure-arithmetic attempt: drop quantified hypotheses, abstract every
         non-arithmetic subterm by a fresh constant (a sound weakening of the hypotheses) and
         run z3's QF_NRA solver.  Only an 'unsat' answer is used."""
